@@ -8,6 +8,7 @@ import CogentModel.Proofs.IndelMapAlignSpec
 import CogentModel.Proofs.IndelMapSliceTotal
 import CogentModel.Proofs.IndelMapAdd2
 import CogentModel.Proofs.IndelMapMul
+import CogentModel.Proofs.IndelMapJoin3
 /-! # C08 — property theorems (gapped-coordinate maps agree with the gapped string)
 
 `abs m : List (Option Nat)` is the gapped string (column ↦ sequence index or gap) a map stands
@@ -159,8 +160,19 @@ theorem mul_spec (m : IMap) (h : WF m) (k : Nat) (hk : 0 < k) :
 example : (mul (fromGapped [false, true, false]) 3).toOption
     = some (fromGapped [false, false, false, true, true, true, false, false, false]) := by decide
 
+/-- **`joined_segments(coords)`** (used when an alignment row is sliced by a multi-span feature map,
+e.g. by `filtered()`): the segments are sorted by start, each is sliced out of the map, and the
+dictionary of accumulated gaps is the map of the slices `s[a₁:b₁] s[a₂:b₂] …` joined together —
+gap runs meeting at a junction become one gap; the result is well formed. -/
+theorem joined_spec (m : IMap) (h : WF m) (coords : List (Int × Int)) (r : IMap)
+    (hr : joinedSegments m coords = .ok r) :
+    WF r ∧ abs r = ofPattern (joinedPattern (abs m) (sortPairs coords)) := joined_spec' m h coords r hr
+
+example : (joinedSegments (fromGapped [false, true, false, true, true, false]) [(3, 5), (0, 2)]).toOption
+    = some (fromGapped [false, true, true, true]) := by decide
+
 /- FULL STATEMENTS (not proved):
-   `merge_spec`, `joined_spec`, `minus_spec`.  They are covered by the
+   `merge_spec`, `minus_spec`.  They are covered by the
    exhaustive correspondence (model = code on every layout of length ≤ 8 x every interval) plus the
    exhaustive spec-level differential (code = string). -/
 
